@@ -22,8 +22,9 @@ Lemma ex12_ok : both_complete (ex_run12 idf idf idf idf) /\ unforgeable toy_fin 
   option_map (fun e => sh_tail (e_sh e)) (o_s (ex_run12 idf idf idf idf)) = Some 2.
 Proof. split; [apply both_of_done2; vm_compute; reflexivity|split; [apply unforgeable_of_check; vm_compute; reflexivity|vm_compute; reflexivity]]. Qed.
 
-Lemma ex12r_ok : both_complete (ex_run12r idf idf idf) /\ unforgeable toy_fin (ex_run12r idf idf idf).
-Proof. split; [apply both_of_done2; vm_compute; reflexivity|apply unforgeable_of_check; vm_compute; reflexivity]. Qed.
+Lemma ex12r_ok : both_complete (ex_run12r idf idf idf) /\ unforgeable toy_fin (ex_run12r idf idf idf) /\
+  option_map (fun e => sh_tail (e_sh e)) (o_s (ex_run12r idf idf idf)) = Some 2.
+Proof. split; [apply both_of_done2; vm_compute; reflexivity|split; [apply unforgeable_of_check; vm_compute; reflexivity|vm_compute; reflexivity]]. Qed.
 
 Lemma ex13_ok : forall hrr, both_complete (ex_run13 hrr idf idf idf idf idf) /\ unforgeable toy_fin (ex_run13 hrr idf idf idf idf idf).
 Proof. intros [|]; (split; [apply both_of_done2; vm_compute; reflexivity|apply unforgeable_of_check; vm_compute; reflexivity]). Qed.
@@ -38,9 +39,3 @@ Definition ex_run12_dg (a1 a2 a3 a4 : list msg -> list msg) : outcome :=
 
 Lemma ex_downgrade_stopped : o_stage (ex_run12_dg strip13 idf idf idf) = (1, ALERT_ILLEGAL_PARAMETER).
 Proof. vm_compute. reflexivity. Qed.
-
-(* the resumed ServerHello of a TLS-1.3-capable server negotiating TLS 1.2 has no sentinel *)
-Lemma resumption_no_sentinel :
-  exists s, o_s (ex_run12r idf idf idf) = Some s /\
-    sel_version 769 772 (e_ch s) = SelOk TLS12 /\ 772 > TLS12 /\ sh_tail (e_sh s) <> 2.
-Proof. eexists. split; [vm_compute; reflexivity|]. vm_compute. repeat split; try reflexivity; discriminate. Qed.
